@@ -557,7 +557,7 @@ class PeerConnection:
                 continue
 
             resume_waiting = False
-            while len(self._read_buffer) > 0 and resume_waiting is False:
+            while len(self._read_buffer) >= 20 and resume_waiting is False:
                 msg_header = message = None
                 try:
                     msg_header = MessageHeader.from_bytes(self._read_buffer)
@@ -576,7 +576,7 @@ class PeerConnection:
                         self._read_buffer = self._read_buffer[msg_header.length:]
 
                 except Exception as e:
-                    if msg_header and len(self._read_buffer) >= msg_header.length:
+                    if msg_header and 20 <= msg_header.length <= len(self._read_buffer):
                         self.logger.warning(
                             f"received garbage: {e}, discarding {msg_header.length} "
                             f"bytes")
